@@ -14,7 +14,7 @@ DECV = {"cobs": "REF_COBS", "cobs_r": "REF_COBS_R", "zpe": "REF_ZPE", "zpe_r": "
 def queries(tier):
     qs = []
     fr = FRAMINGS[:2] if tier == "quick" else FRAMINGS
-    lmax = 3 if tier == "quick" else 5
+    lmax = 3 if tier == "quick" else 4
     for (nm, enc, dec) in fr:
       for off in range(0, lmax + 2):
         qs.append(Q("recv_%s_off%d" % (nm, off), "C02/recv.c", units=[u for u in U if "queue_push" not in u and "encode_" not in u], harness_defines={"DEC": dec, "VARIANT": DECV[nm], "QMAX": lmax + 2, "LMAX": lmax, "OFF": off, "TWO_SEG": 1},
